@@ -94,6 +94,8 @@ type submitCall struct {
 }
 
 type world struct {
+	id       int // number of the duty in the history
+	auction  *auctionDouble
 	c        *Case
 	mu       sync.Mutex
 	seq      int
@@ -116,16 +118,40 @@ type world struct {
 	syncExpected int
 	syncArrived  int
 	syncCh       chan struct{}
+
+	delivered     chan struct{} // closed when a relay double first returns a full block
+	deliveredOnce sync.Once
 }
 
-func newWorld(c *Case) *world {
-	w := &world{c: c, attempts: map[int]int{}, syncCh: make(chan struct{})}
+// tag makes a signature say which request produced it (duty, account, slot).
+func (w *world) tag(sig *phase0.BLSSignature, acc e2wtypes.Account, slot uint64) {
+	sig[1] = byte(w.id)
+	if a, ok := acc.(*account); ok && a != nil {
+		sig[2] = byte(a.index)
+	} else {
+		sig[2] = 0xff
+	}
+	for i := 0; i < 8; i++ {
+		sig[3+i] = byte(slot >> (8 * i))
+	}
+}
+
+func newAccounts() []*account {
+	var res []*account
 	for i := 0; i < universe; i++ {
 		a := &account{index: uint64(i), pk: &pubkey{}}
 		fill(a.pk.b[:], uint8(i), 40)
 		fill(a.id[:], uint8(i), 41)
-		w.accounts = append(w.accounts, a)
+		res = append(res, a)
 	}
+	return res
+}
+
+// newWorld creates the log and the scripts of duty id; the accounts are those of
+// the service (shared by all duties of a history).
+func newWorld(id int, c *Case, accounts []*account) *world {
+	w := &world{id: id, c: c, accounts: accounts, attempts: map[int]int{}, syncCh: make(chan struct{}), delivered: make(chan struct{})}
+	w.auction = newAuction(w)
 	for _, r := range c.Relays {
 		if r.Kind == "relay" && len(r.Steps) > 0 && r.Steps[0] == "sync" {
 			w.syncExpected++
@@ -136,16 +162,32 @@ func newWorld(c *Case) *world {
 
 func (w *world) next() int { w.seq++; return w.seq }
 
+// router gives the (single) service's doubles the world of the duty that the
+// harness is currently preparing or proposing; the steps of a history run one
+// after the other, so every call is attributed to the duty it was made for.
+// Relay doubles belong to the auction result of one duty and keep its world.
+type router struct {
+	mu  sync.Mutex
+	cur *world
+}
+
+func (r *router) set(w *world) { r.mu.Lock(); r.cur = w; r.mu.Unlock() }
+func (r *router) world() *world {
+	r.mu.Lock()
+	defer r.mu.Unlock()
+	return r.cur
+}
+
 // ---- accounts ----
 
-type accountsDouble struct{ w *world }
+type accountsDouble struct{ r *router }
 
 func (d accountsDouble) ValidatingAccountsForEpoch(_ context.Context, _ phase0.Epoch) (map[phase0.ValidatorIndex]e2wtypes.Account, error) {
 	return nil, errors.New("not used by the proposer")
 }
 
 func (d accountsDouble) ValidatingAccountsForEpochByIndex(_ context.Context, _ phase0.Epoch, indices []phase0.ValidatorIndex) (map[phase0.ValidatorIndex]e2wtypes.Account, error) {
-	w := d.w
+	w := d.r.world()
 	w.mu.Lock()
 	defer w.mu.Unlock()
 	w.next()
@@ -175,10 +217,10 @@ func (d accountsDouble) SyncCommitteeAccountsForEpochByIndex(_ context.Context, 
 
 // ---- signer ----
 
-type signerDouble struct{ w *world }
+type signerDouble struct{ r *router }
 
 func (d signerDouble) SignRANDAOReveal(_ context.Context, acc e2wtypes.Account, slot phase0.Slot) (phase0.BLSSignature, error) {
-	w := d.w
+	w := d.r.world()
 	w.mu.Lock()
 	defer w.mu.Unlock()
 	rc := randaoCall{seq: w.next(), account: acc, slot: uint64(slot)}
@@ -187,13 +229,14 @@ func (d signerDouble) SignRANDAOReveal(_ context.Context, acc e2wtypes.Account, 
 	} else {
 		fill(rc.sig[:], uint8(rc.seq), 50)
 		rc.sig[0] = 0xa5
+		w.tag(&rc.sig, acc, uint64(slot))
 	}
 	w.randaos = append(w.randaos, rc)
 	return rc.sig, rc.err
 }
 
 func (d signerDouble) SignBeaconBlockProposal(ctx context.Context, acc e2wtypes.Account, slot phase0.Slot, index phase0.ValidatorIndex, parent, state, body phase0.Root) (phase0.BLSSignature, error) {
-	w := d.w
+	w := d.r.world()
 	w.mu.Lock()
 	defer w.mu.Unlock()
 	sc := signCall{seq: w.next(), account: acc, slot: uint64(slot), index: uint64(index), parent: parent, state: state, body: body}
@@ -205,24 +248,26 @@ func (d signerDouble) SignBeaconBlockProposal(ctx context.Context, acc e2wtypes.
 	} else {
 		fill(sc.sig[:], uint8(sc.seq), 51)
 		sc.sig[0] = 0xb5
+		w.tag(&sc.sig, acc, uint64(slot))
 	}
 	w.signs = append(w.signs, sc)
 	return sc.sig, sc.err
 }
 
 func (d signerDouble) SignBlobSidecar(_ context.Context, _ e2wtypes.Account, _ phase0.Slot, _ phase0.Root) (phase0.BLSSignature, error) {
-	d.w.mu.Lock()
-	d.w.blobSigns++
-	d.w.mu.Unlock()
+	w := d.r.world()
+	w.mu.Lock()
+	w.blobSigns++
+	w.mu.Unlock()
 	return phase0.BLSSignature{}, errors.New("not expected")
 }
 
 // ---- graffiti ----
 
-type graffitiDouble struct{ w *world }
+type graffitiDouble struct{ r *router }
 
 func (d graffitiDouble) Graffiti(ctx context.Context, _ phase0.Slot, _ phase0.ValidatorIndex) ([]byte, error) {
-	w := d.w
+	w := d.r.world()
 	var gc graffitiCall
 	if w.c.GraffitiDelayMs > 0 {
 		tm := time.NewTimer(time.Duration(w.c.GraffitiDelayMs) * time.Millisecond)
@@ -252,23 +297,24 @@ func (d graffitiDouble) Graffiti(ctx context.Context, _ phase0.Slot, _ phase0.Va
 
 // ---- execution chain head ----
 
-type headDouble struct{ w *world }
+type headDouble struct{ r *router }
 
 func (d headDouble) ExecutionChainHead(_ context.Context) (phase0.Hash32, uint64) {
-	d.w.mu.Lock()
-	d.w.headCalls++
-	d.w.mu.Unlock()
+	w := d.r.world()
+	w.mu.Lock()
+	w.headCalls++
+	w.mu.Unlock()
 	var h phase0.Hash32
-	fill(h[:], d.w.c.Body.Seed, 8)
-	return h, d.w.c.Body.BlockNumber
+	fill(h[:], w.c.Body.Seed, 8)
+	return h, w.c.Body.BlockNumber
 }
 
 // ---- beacon node ----
 
-type nodeDouble struct{ w *world }
+type nodeDouble struct{ r *router }
 
 func (d nodeDouble) Proposal(ctx context.Context, opts *api.ProposalOpts) (*api.Response[*api.VersionedProposal], error) {
-	w := d.w
+	w := d.r.world()
 	w.mu.Lock()
 	defer w.mu.Unlock()
 	pc := proposalCall{seq: w.next()}
@@ -294,10 +340,10 @@ func (d nodeDouble) Proposal(ctx context.Context, opts *api.ProposalOpts) (*api.
 
 // ---- submitter ----
 
-type submitDouble struct{ w *world }
+type submitDouble struct{ r *router }
 
 func (d submitDouble) SubmitProposal(ctx context.Context, p *api.VersionedSignedProposal) error {
-	w := d.w
+	w := d.r.world()
 	w.mu.Lock()
 	defer w.mu.Unlock()
 	sc := submitCall{seq: w.next(), proposal: p}
@@ -322,6 +368,12 @@ func (d submitDouble) SubmitProposal(ctx context.Context, p *api.VersionedSigned
 }
 
 // ---- auctioneer and relays ----
+
+type auctionRouter struct{ r *router }
+
+func (d auctionRouter) AuctionBlock(ctx context.Context, slot phase0.Slot, hash phase0.Hash32, pubkey phase0.BLSPubKey) (*blockauctioneer.Results, error) {
+	return d.r.world().auction.AuctionBlock(ctx, slot, hash, pubkey)
+}
 
 type auctionDouble struct {
 	w       *world
@@ -474,5 +526,6 @@ func (r *relayDouble) UnblindProposal(ctx context.Context, opts *builderapi.Unbl
 	send.retWire = wire(fullOf(full))
 	send.retSeq = w.next()
 	w.mu.Unlock()
+	w.deliveredOnce.Do(func() { close(w.delivered) })
 	return &builderapi.Response[*api.VersionedSignedProposal]{Data: full, Metadata: map[string]any{}}, nil
 }
